@@ -235,6 +235,21 @@ CHECKS['C16'] = (
     'Spectrum slots and spectrum blocking reasons are excluded as the property allows; networks have 3 ROADM sites.',
     'DESIGN.md 3/C16')
 
+CHECKS['C19'] = (
+    'exhaustive enumeration of ordered batches of outcome kinds through planning() -> results_to_json -> jsontocsv, independent '
+    'response model built from the returned requests and propagated paths',
+    'Every single outcome, every ordered pair and a twelfth (thorough: all) of the ordered triples of 12 outcome kinds (served, '
+    'served bidirectional, served with an N/M list, aggregated pair, aggregated triple, NO_PATH_WITH_CONSTRAINT, '
+    'NO_FEASIBLE_BAUDRATE_WITH_SPACING, NO_FEASIBLE_MODE, MODE_NOT_FEASIBLE forward / reverse-only, NO_SPECTRUM, '
+    'NOT_ENOUGH_RESERVED_SPECTRUM) on an asymmetric line system with a 2 dB system margin and penalty tables: one response per '
+    '(joined) id with summed bandwidth, hop list == computed path, transponder type/mode, N/M labels == assignment, every metric '
+    '== the receiver attribute of the right direction rounded to 2 decimals, blocked requests carry the reason and no labels, '
+    'bidirectional ones a z-a block from the reverse receiver; the CSV parsed back states the same values, threshold column == mode '
+    'OSNR + margin, pass flag consistent; jsontocsv is also driven with each served response whose lowest SNR is moved to 5 '
+    'values around the margin-inclusive threshold.',
+    'The menu entries are verified to produce the outcome they were built for; one 3-site network.',
+    'DESIGN.md 3/C19')
+
 ALL = [f'C{i:02d}' for i in range(1, 21)]
 NOT_BUILT_REASON = 'check not built yet in this round (planned, see DESIGN.md section 3); not claimed until it runs'
 
